@@ -21,18 +21,23 @@ func init() {
 			"V-buffer-locks — buffer.KeyValue (buf/back identified by the parameter positions of buffer.New): every call on buf/back holds kv.mu — write mode in Flush, read mode elsewhere, with two reasoned exceptions (Find's iterators, the terminal back.Close); kv.buffered is read/written only under kv.bufMu; no method calls a sibling method that locks a mutex the caller holds; Flush commits the delete batch to buf only on the success edge of committing the copy to back, each batch to the store it was begun on, and every key it deletes from buf was put, with the value of the same buf iterator, into back's batch; Delete reaches both stores on every path and a batched delete goes into both batches within the iteration; Get calls back.Get only where buf.Get's error was compared equal to sorted.ErrNotFound. " +
 			"V-iter — buffer.(*iter).Next advances a sub-iterator only on paths where that sub-iterator's eof flag is known false (abstract interpretation over the two flags and the results of subIter.next, whose summary 'false iff it set eof' is itself checked); buffer.(*iter).Close closes both sub-iterators on every path; Close of every sorted.Iterator implementer under pkg/sorted never returns a constant nil; every iterator obtained from Find inside pkg/sorted is closed on every path or stored/returned; for every declared Find, the end parameter is used as a bound only on the end != \"\" edge, or is passed unchanged to another Find, or is stored in an iterator field whose Next compares bytes.Compare(key, end) only under len(end) > 0 and stops exactly for results >= 0 (the branch is evaluated for -1, 0, +1). " +
 			"V-notfound — every declared Get of an implementer has a return yielding sorted.ErrNotFound or returns the error of another Get; where Delete compares the error of a backend delete call with a package-level sentinel (memdb.ErrNotFound, mgo.ErrNotFound), every call of that backend function in CommitBatch compares with the same sentinel (existence of the comparison, not its polarity). " +
-			"NOT decided: that any store behaves as a sorted map for a concrete history; byte ordering and the merge order of buffer's iterator (only its eof discipline); the semantics of the engines (leveldb, modernc kv, SQL text and collation, mongo queries); start-bound handling; durability across close/reopen; lock-free consistency of iterators returned by buffer.Find; direct kvfile Set/Delete racing with a transaction; whether CheckSizes' limits are the right ones.",
+			"V-batch-order — clause 'a committed batch applies its sets and deletes in order', as far as the replay code goes, over every non-test implementer of sorted.BatchMutation and every declared CommitBatch of an implementer of sorted.KeyValue: (3) each batch type's Set and Delete either append (x.f = append(x.f, …), also through one helper) to the END of one and the same slice field, or hand the key synchronously (no go statement) to one common object held in a field of the batch (leveldb.Batch, *sql.Tx) at the time they are called; a method that returns the recorded slice returns it or an exact copy; " +
+			"(1) in CommitBatch (and in module helpers that receive the slice, two levels) the recorded slice and every copy of it (slices.Clone, append(nil/empty, s...), make+copy, local variables) is never handed to sort.Sort/Slice/Strings…, slices.Sort/SortFunc/Reverse/Backward, container/heap, rand.Shuffle, never written by index, and never handed to code the analysis cannot follow (undecided); a STABLE sort (sort.SliceStable, sort.Stable, slices.SortStableFunc) is accepted exactly when its comparator, instruction by instruction, reads nothing of a mutation but its key (Mutation.Key() / the struct field Set and Delete record the key into) and calls nothing but strings/bytes/cmp.Compare — mutations of different keys commute, mutations of one key keep their order; unstable sorts and comparators that read the value or the delete flag are violations; " +
+			"(2) every call or non-local store that receives (something derived from) a mutation sits inside ONE loop over the slice whose counter starts at element 0, advances by exactly one and is tested against len(that slice) (range, counted and range-over-int forms): descending counters, ranging over a map filled from the mutations, two passes, a go statement are violations; sub-slices, rebuilt slices, carried or deferred elements and unrecognised loop shapes are undecided; " +
+			"(4) per underlying store (access path of the receiver, for a batch the store BeginBatch was called on) all mutations travel through one channel — direct calls or one batch — so buffer's buf and back each see their mutations in recording order. " +
+			"NOT decided: that any store behaves as a sorted map for a concrete history; that the engines (leveldb.Batch, SQL transaction, kv.DB, memdb, mongo) apply what they are handed in the order they are handed it; atomicity of mongo/memory batches; byte ordering and the merge order of buffer's iterator (only its eof discipline); the semantics of the engines (leveldb, modernc kv, SQL text and collation, mongo queries); start-bound handling; durability across close/reopen; lock-free consistency of iterators returned by buffer.Find; direct kvfile Set/Delete racing with a transaction; whether CheckSizes' limits are the right ones.",
 		RuleDocs: map[string]string{
 			"V-size":         "forward value-flow from key/value (parameters, sorted.Mutation accessors, recorded struct fields) to every call/escaping store; each must be success-dominated by CheckSizes on the same key/value; oversize edge returns nil / continues the batch loop",
 			"V-txn":          "path exploration from (*kv.DB).BeginTransaction to exits with constant propagation of the rollback flag; dominance rules on kvfile writes and on sqlkv.CommitBatch's Commit/Rollback; nil-tx use rule",
 			"V-buffer-locks": "must-hold locksets at every buf/back invoke and every access of buffered in pkg/sorted/buffer; self-deadlock rule; Flush order and move agreement; both-store deletes; Get shadowing",
 			"V-notfound":     "every declared Get yields sorted.ErrNotFound on some return or delegates to a Get that does; a backend not-found sentinel that Delete compares the backend's delete error with is compared the same way on the batch path",
+			"V-batch-order":  "forward value-flow of the recorded mutation slice (field loads, Mutations()) and its copies through every CommitBatch: no reordering library call, no index write, stable sorts only with a comparator proven key-only; induction-variable recognition of the single ascending replay loop (start 0, step 1, bound len); every mutation hand-over inside that loop; one channel per underlying store; Set/Delete of every batch type append to the end of one slice or forward synchronously to one engine batch",
 			"V-iter":         "abstract interpretation of buffer.(*iter).Next over the two eof flags; all-paths close of both sub-iterators; Close error propagation of every sorted.Iterator implementer in pkg/sorted; Find/Close pairing inside pkg/sorted; exclusive end-bound comparison in client-side filters",
 		},
 		Run:       runC10,
 		DesignRef: "DESIGN.md §4 C10",
-		Technique: "static analysis: forward value-flow + dominance on the CheckSizes success edge, CFG path exploration with flag constant propagation (transactions), must-hold locksets, small abstract interpretation of the merge iterator, sibling comparison over all implementers of sorted.KeyValue/sorted.Iterator",
-		LevelText: "Decides structural necessary conditions only: all implementations skip oversize keys/values the same way on the direct and the batch path, kvfile/sqlkv batches end in exactly one of commit/rollback and never commit after a failed write, the write buffer's lock discipline, flush order and double deletes, and iterator close/eof/end-bound agreement. Does not decide that any store actually behaves as a sorted map for a concrete history, nor ordering, durability or the storage engines themselves.",
+		Technique: "static analysis: forward value-flow + dominance on the CheckSizes success edge, CFG path exploration with flag constant propagation (transactions), must-hold locksets, small abstract interpretation of the merge iterator, sibling comparison over all implementers of sorted.KeyValue/sorted.Iterator/sorted.BatchMutation, forward value-flow of the recorded batch slice with induction-variable recognition of the replay loop and instruction-level whitelisting of sort comparators",
+		LevelText: "Decides structural necessary conditions only: all implementations skip oversize keys/values the same way on the direct and the batch path, kvfile/sqlkv batches end in exactly one of commit/rollback and never commit after a failed write, the write buffer's lock discipline, flush order and double deletes, iterator close/eof/end-bound agreement, and that every batch implementation records mutations at the end of one sequence (or forwards them at once to one engine batch) and every CommitBatch replays that sequence once, first to last, without reordering it (stable key-only sorts excepted) and through one channel per underlying store. Does not decide that any store actually behaves as a sorted map for a concrete history, nor ordering, durability or the storage engines themselves.",
 	})
 }
 
@@ -47,6 +52,7 @@ func runC10(p *Program, r *Reporter) {
 	c10RuleBuffer(p, r)
 	c10RuleIter(p, r)
 	c10RuleNotFound(p, r)
+	c10RuleBatchOrder(p, r)
 }
 
 // ===========================================================================
@@ -410,7 +416,7 @@ func c10OversizeEdge(p *Program, r *Reporter, fn *ssa.Function, guards []c10Guar
 		if bad == "" {
 			if fail := c10FailSucc(ev); fail != nil {
 				if h := c10LoopHeader(g.call.Block()); h != nil {
-					if ex := c10ReachesExitAvoiding(fail, h); ex != nil {
+					if ex := c10ReachesExitAvoiding(fail, c10ContinuePoints(h)); ex != nil {
 						bad = fmt.Sprintf("on the oversize edge the batch loop is left (exit at line %d) instead of continuing with the next mutation: the rest of the batch would be dropped", p.Fset.Position(ex.Pos()).Line)
 					}
 				}
@@ -520,8 +526,8 @@ func c10Reaches(a, b, avoid *ssa.BasicBlock) bool {
 
 // c10ReachesExitAvoiding returns a Return reachable from block from without
 // entering block avoid (nil if none).
-func c10ReachesExitAvoiding(from, avoid *ssa.BasicBlock) ssa.Instruction {
-	if from == avoid {
+func c10ReachesExitAvoiding(from *ssa.BasicBlock, avoid map[*ssa.BasicBlock]bool) ssa.Instruction {
+	if avoid[from] {
 		return nil
 	}
 	seen := map[*ssa.BasicBlock]bool{from: true}
@@ -538,7 +544,7 @@ func c10ReachesExitAvoiding(from, avoid *ssa.BasicBlock) ssa.Instruction {
 			}
 		}
 		for _, s := range x.Succs {
-			if s == avoid || seen[s] {
+			if avoid[s] || seen[s] {
 				continue
 			}
 			seen[s] = true
@@ -547,6 +553,36 @@ func c10ReachesExitAvoiding(from, avoid *ssa.BasicBlock) ssa.Instruction {
 	}
 	walk(from)
 	return found
+}
+
+// c10ContinuePoints: the blocks at which "the loop goes on with the next
+// element": the header h and, for loops whose test sits at the bottom
+// (range-over-int, rotated loops), the latch — a back-edge predecessor of h
+// that does nothing but jump to h or choose between h and leaving the loop.
+func c10ContinuePoints(h *ssa.BasicBlock) map[*ssa.BasicBlock]bool {
+	out := map[*ssa.BasicBlock]bool{h: true}
+	for _, p := range h.Preds {
+		if !h.Dominates(p) || p == h {
+			continue
+		}
+		latch := true
+		for _, s := range p.Succs {
+			if s != h && c10InLoopOf(h, s) {
+				latch = false
+			}
+		}
+		for _, in := range p.Instrs {
+			switch in.(type) {
+			case *ssa.BinOp, *ssa.If, *ssa.Jump, *ssa.DebugRef, *ssa.Phi:
+			default:
+				latch = false
+			}
+		}
+		if latch {
+			out[p] = true
+		}
+	}
+	return out
 }
 
 // c10BatchConcrete resolves the concrete type BeginBatch returns (through
@@ -2774,4 +2810,1415 @@ func c10YieldsNotFound(fn *ssa.Function, depth int) (bool, string) {
 		}
 	}
 	return false, ""
+}
+
+// ===========================================================================
+// V-batch-order
+//
+// "A committed batch applies its sets and deletes in order": the order in
+// which BatchMutation.Set/Delete were called is the order in which the store
+// sees them, at least between mutations of one key (mutations of different
+// keys commute in a map). Structurally there are two kinds of batch types:
+// recording ones (Set/Delete append to a slice that CommitBatch replays) and
+// direct ones (Set/Delete call an ordered engine batch / transaction right
+// away). The rule follows the recorded slice through every CommitBatch.
+
+type c10OBits uint16
+
+const (
+	c10oSeq     c10OBits = 1 << iota // the recorded slice or an exact order-preserving copy of it
+	c10oPart                         // order-preserving, but a sub-slice or extended copy
+	c10oElem                         // element read at the ascending counter of the loops in c10OFlow.loops
+	c10oRev                          // element read at a descending counter
+	c10oUnk                          // element read at an index the analysis does not recognise
+	c10oUnord                        // obtained by ranging over a map filled from elements
+	c10oRegroup                      // read from / being a slice rebuilt element by element
+	c10oCarried                      // element carried round a loop back edge
+	c10oMapOf                        // function-local map filled from elements
+
+	c10oSeqMask  = c10oSeq | c10oPart
+	c10oElemMask = c10oElem | c10oRev | c10oUnk | c10oUnord | c10oRegroup | c10oCarried
+)
+
+// c10BatchInfo: what Set/Delete of one sorted.BatchMutation implementer do.
+type c10BatchInfo struct {
+	typ        *types.Named
+	kind       string // "recording", "direct", "" (undetermined)
+	seqField   int    // recording: the slice field
+	elem       types.Type
+	elemStruct *types.Named // element type when it is a named struct
+	keyField   int          // field of elemStruct the key is recorded into (-1 unknown)
+	accessors  map[*ssa.Function]c10OBits
+}
+
+type c10OrderCtx struct {
+	p         *Program
+	recording map[*types.Named]*c10BatchInfo
+	helpers   map[string]*c10OrderSum
+}
+
+type c10OSite struct {
+	instr  ssa.Instruction
+	call   *CallSite
+	bits   c10OBits
+	loops  map[*ssa.BasicBlock]bool
+	helper *c10OrderSum // the callee replays the whole slice itself
+}
+
+// c10OrderSum: result of following the recorded slice through one function.
+// Problems are keyed by clause: "intact" (1), "pass" (2), "channels" (4).
+type c10OrderSum struct {
+	fn     *ssa.Function
+	viol   map[string][]string
+	und    map[string][]string
+	notes  map[string][]string
+	sites  []*c10OSite
+	ret    c10OBits
+	nSeeds int
+	passes int
+}
+
+func (s *c10OrderSum) addTo(m map[string][]string, clause, msg string) {
+	for _, x := range m[clause] {
+		if x == msg {
+			return
+		}
+	}
+	m[clause] = append(m[clause], msg)
+}
+
+type c10OFlow struct {
+	ctx      *c10OrderCtx
+	fn       *ssa.Function
+	depth    int
+	lab      map[ssa.Value]c10OBits
+	loops    map[ssa.Value]map[*ssa.BasicBlock]bool
+	work     []ssa.Value
+	sum      *c10OrderSum
+	siteOf   map[ssa.Instruction]*c10OSite
+	idxWhy   map[ssa.Value]string
+	idxWrite []*ssa.Store
+	copies   []*ssa.Call // copy(dst, src) with dst carrying the recorded slice
+}
+
+func (f *c10OFlow) line(pos token.Pos) int { return f.ctx.p.Fset.Position(pos).Line }
+
+func (f *c10OFlow) viol(clause, format string, a ...any) {
+	f.sum.addTo(f.sum.viol, clause, fmt.Sprintf(format, a...))
+}
+func (f *c10OFlow) undec(clause, format string, a ...any) {
+	f.sum.addTo(f.sum.und, clause, fmt.Sprintf(format, a...))
+}
+func (f *c10OFlow) note(clause, format string, a ...any) {
+	f.sum.addTo(f.sum.notes, clause, fmt.Sprintf(format, a...))
+}
+
+func (f *c10OFlow) add(v ssa.Value, bits c10OBits, loops map[*ssa.BasicBlock]bool) {
+	if v == nil || bits == 0 {
+		return
+	}
+	grew := false
+	if f.lab[v]|bits != f.lab[v] {
+		f.lab[v] |= bits
+		grew = true
+	}
+	if bits&c10oElem != 0 {
+		m := f.loops[v]
+		for h := range loops {
+			if m == nil {
+				m = map[*ssa.BasicBlock]bool{}
+				f.loops[v] = m
+			}
+			if !m[h] {
+				m[h] = true
+				grew = true
+			}
+		}
+	}
+	if grew {
+		f.work = append(f.work, v)
+	}
+}
+
+// addSliceVar labels a slice value and, when it is the load of a local
+// variable, the variable (so that every other load sees the label).
+func (f *c10OFlow) addSliceVar(x ssa.Value, bits c10OBits, loops map[*ssa.BasicBlock]bool) {
+	f.add(x, bits, loops)
+	if ld, ok := x.(*ssa.UnOp); ok && ld.Op == token.MUL {
+		if al, ok := ld.X.(*ssa.Alloc); ok && al.Parent() == f.fn {
+			f.add(al, bits, loops)
+		}
+	}
+}
+
+func (f *c10OFlow) site(in ssa.Instruction, c *CallSite, bits c10OBits, loops map[*ssa.BasicBlock]bool) *c10OSite {
+	s := f.siteOf[in]
+	if s == nil {
+		s = &c10OSite{instr: in, call: c, loops: map[*ssa.BasicBlock]bool{}}
+		f.siteOf[in] = s
+		f.sum.sites = append(f.sum.sites, s)
+	}
+	s.bits |= bits & c10oElemMask
+	if bits&c10oElem != 0 {
+		for h := range loops {
+			s.loops[h] = true
+		}
+	}
+	return s
+}
+
+func c10IsSlice(t types.Type) bool {
+	_, ok := t.Underlying().(*types.Slice)
+	return ok
+}
+
+// c10SameSlice: two mentions of one slice (same value, or loads of one variable).
+func c10SameSlice(a, b ssa.Value) bool {
+	if a == b || originValue(a) == originValue(b) {
+		return true
+	}
+	la, ok1 := a.(*ssa.UnOp)
+	lb, ok2 := b.(*ssa.UnOp)
+	if ok1 && ok2 && la.Op == token.MUL && lb.Op == token.MUL {
+		ca, oka := varOf(la.X)
+		cb, okb := varOf(lb.X)
+		return oka && okb && ca == cb
+	}
+	return false
+}
+
+// c10EmptySlice: nil, make([]T, 0, ...) or []T{}.
+func c10EmptySlice(v ssa.Value) bool {
+	for i := 0; i < 4; i++ {
+		switch x := v.(type) {
+		case *ssa.ChangeType:
+			v = x.X
+			continue
+		case *ssa.Convert:
+			v = x.X
+			continue
+		case *ssa.Const:
+			return x.IsNil()
+		case *ssa.MakeSlice:
+			n, ok := ConstInt(x.Len)
+			return ok && n == 0
+		case *ssa.Slice:
+			if al, ok := x.X.(*ssa.Alloc); ok {
+				if pt, ok := al.Type().Underlying().(*types.Pointer); ok {
+					if at, ok := pt.Elem().Underlying().(*types.Array); ok {
+						return at.Len() == 0
+					}
+				}
+			}
+		}
+		return false
+	}
+	return false
+}
+
+func c10LenOf(v ssa.Value) ssa.Value {
+	call, ok := v.(*ssa.Call)
+	if !ok {
+		return nil
+	}
+	if b, ok := call.Call.Value.(*ssa.Builtin); ok && b.Name() == "len" && len(call.Call.Args) == 1 {
+		return call.Call.Args[0]
+	}
+	return nil
+}
+
+// c10AddConst splits v into base + k for v = base ± const.
+func c10AddConst(v ssa.Value) (ssa.Value, int64) {
+	if bo, ok := v.(*ssa.BinOp); ok {
+		switch bo.Op {
+		case token.ADD:
+			if k, ok := ConstInt(bo.Y); ok {
+				return bo.X, k
+			}
+			if k, ok := ConstInt(bo.X); ok {
+				return bo.Y, k
+			}
+		case token.SUB:
+			if k, ok := ConstInt(bo.Y); ok {
+				return bo.X, -k
+			}
+		}
+	}
+	return v, 0
+}
+
+// c10InLoopOf: b belongs to the natural loop(s) with header h.
+func c10InLoopOf(h, b *ssa.BasicBlock) bool {
+	if h == nil || !h.Dominates(b) {
+		return false
+	}
+	for _, p := range h.Preds {
+		if h.Dominates(p) && c10Reaches(b, p, h) {
+			return true
+		}
+	}
+	return false
+}
+
+// c10ClassifyIndex decides how the element address ia = &s[idx] walks over s:
+// c10oElem (with the loop header) when idx is a loop counter that starts at
+// element 0, advances by exactly one per iteration and is tested against
+// len(s); c10oRev when the counter goes down; c10oUnk otherwise.
+func c10ClassifyIndex(ia *ssa.IndexAddr) (c10OBits, *ssa.BasicBlock, string) {
+	base, off := c10AddConst(ia.Index)
+	ph, ok := base.(*ssa.Phi)
+	if !ok {
+		return c10oUnk, nil, "the index is not a loop counter"
+	}
+	h := ph.Block()
+	steps := map[int64]bool{}
+	nBack, badInit := 0, false
+	for i, e := range ph.Edges {
+		if h.Dominates(h.Preds[i]) {
+			nBack++
+			b2, k := c10AddConst(e)
+			if b2 != ssa.Value(ph) || k == 0 {
+				return c10oUnk, nil, "the loop counter is not advanced by a constant step"
+			}
+			steps[k] = true
+			continue
+		}
+		if c, ok := ConstInt(e); !ok || c+off != 0 {
+			badInit = true
+		}
+	}
+	switch {
+	case nBack == 0:
+		return c10oUnk, nil, "the index is not a loop counter"
+	case len(steps) == 1 && steps[-1]:
+		return c10oRev, nil, "the loop counter goes down"
+	case len(steps) != 1 || !steps[1]:
+		return c10oUnk, nil, "the loop counter does not advance by exactly one"
+	case badInit:
+		return c10oUnk, nil, "the first element read is not element 0"
+	}
+	// the loop test: idx < len(s) before the access, or idx+1 < len(s) after it (rotated loop)
+	for _, b := range h.Parent().Blocks {
+		if len(b.Instrs) == 0 || !c10InLoopOf(h, b) {
+			continue
+		}
+		ifi, ok := b.Instrs[len(b.Instrs)-1].(*ssa.If)
+		if !ok || !c10InLoopOf(h, b.Succs[0]) || c10InLoopOf(h, b.Succs[1]) {
+			continue
+		}
+		bo, ok := ifi.Cond.(*ssa.BinOp)
+		if !ok {
+			continue
+		}
+		var pairs [][2]ssa.Value
+		switch bo.Op {
+		case token.LSS:
+			pairs = [][2]ssa.Value{{bo.X, bo.Y}}
+		case token.GTR:
+			pairs = [][2]ssa.Value{{bo.Y, bo.X}}
+		case token.NEQ:
+			pairs = [][2]ssa.Value{{bo.X, bo.Y}, {bo.Y, bo.X}}
+		}
+		for _, pr := range pairs {
+			arg := c10LenOf(pr[1])
+			if arg == nil || !c10SameSlice(arg, ia.X) {
+				continue
+			}
+			if b != ia.Block() && b.Dominates(ia.Block()) {
+				if pr[0] == ia.Index {
+					return c10oElem, h, ""
+				}
+			} else if ia.Block().Dominates(b) {
+				if b2, k := c10AddConst(pr[0]); k == 1 && b2 == ia.Index {
+					return c10oElem, h, ""
+				}
+			}
+		}
+	}
+	return c10oUnk, nil, "no loop test of the form index < len(that slice) guards the access"
+}
+
+// c10StdFunc names the (generic origin of the) static callee: package path, receiver type name, name.
+func c10StdFunc(c CallSite) (pkg, recv, name string) {
+	fn := c.Callee()
+	if fn == nil {
+		return "", "", ""
+	}
+	if o := fn.Origin(); o != nil {
+		fn = o
+	}
+	if fn.Pkg != nil {
+		pkg = fn.Pkg.Pkg.Path()
+	} else if fn.Object() != nil && fn.Object().Pkg() != nil {
+		pkg = fn.Object().Pkg().Path()
+	}
+	if rv := fn.Signature.Recv(); rv != nil {
+		if n := NamedOf(rv.Type()); n != nil {
+			recv = n.Obj().Name()
+		}
+	}
+	return pkg, recv, fn.Name()
+}
+
+// c10ReorderKind classifies a library function that receives a slice:
+// "clone" (returns an exact copy), "readonly", "stable" (stable sort: keeps
+// the relative order of elements its comparator calls equal), "reorder"
+// (may change the relative order of any two elements), "" (not in the table).
+// One line of reason per group: these are the documented contracts of the
+// standard library functions.
+func c10ReorderKind(c CallSite) string {
+	pkg, recv, name := c10StdFunc(c)
+	switch pkg {
+	case "slices":
+		switch name {
+		case "Clone":
+			return "clone"
+		case "Contains", "ContainsFunc", "Index", "IndexFunc", "Equal", "EqualFunc", "IsSorted", "IsSortedFunc",
+			"BinarySearch", "BinarySearchFunc", "Max", "MaxFunc", "Min", "MinFunc", "Compare", "CompareFunc":
+			return "readonly"
+		case "SortStableFunc":
+			return "stable"
+		case "Sort", "SortFunc", "Reverse", "Backward":
+			return "reorder" // pdqsort is not stable; Reverse/Backward invert the order
+		}
+	case "sort":
+		switch name {
+		case "Stable", "SliceStable":
+			return "stable"
+		case "IsSorted", "SliceIsSorted", "Search", "Find":
+			return "readonly"
+		}
+		if recv == "" {
+			return "reorder" // sort.Sort, sort.Slice, ...: not stable
+		}
+	case "container/heap":
+		return "reorder" // heap order, not insertion order
+	case "math/rand", "math/rand/v2":
+		if name == "Shuffle" || name == "Perm" {
+			return "reorder"
+		}
+	}
+	return ""
+}
+
+func c10FuncValue(v ssa.Value) *ssa.Function {
+	switch x := originValue(v).(type) {
+	case *ssa.MakeClosure:
+		fn, _ := x.Fn.(*ssa.Function)
+		return fn
+	case *ssa.Function:
+		return x
+	}
+	return nil
+}
+
+// c10KeyOnlyCmp decides whether a comparator looks at nothing but the keys
+// of the mutations it compares: 0 yes, 1 cannot tell, 2 it reads something
+// else of a mutation (value, delete flag).
+func c10KeyOnlyCmp(fn *ssa.Function, bi *c10BatchInfo) (int, string) {
+	if fn == nil || fn.Blocks == nil {
+		return 1, "the comparator is not a function literal or declared function"
+	}
+	verdict, why := 0, ""
+	set := func(v int, w string) {
+		if v > verdict {
+			verdict, why = v, w
+		}
+	}
+	_, elemIsIface := bi.elem.Underlying().(*types.Interface)
+	field := func(t types.Type, idx int) {
+		n := NamedOf(t)
+		switch {
+		case n != nil && n == bi.elemStruct && bi.keyField >= 0 && idx == bi.keyField:
+		case n != nil && n == bi.elemStruct:
+			set(2, "reads field "+fieldName(n, idx)+" of a mutation")
+		default:
+			set(1, "reads a field of "+typeKey(t))
+		}
+	}
+	for _, b := range fn.Blocks {
+		for _, in := range b.Instrs {
+			switch x := in.(type) {
+			case *ssa.IndexAddr, *ssa.Phi, *ssa.If, *ssa.Jump, *ssa.Return, *ssa.DebugRef, *ssa.Convert, *ssa.ChangeType, *ssa.Extract, *ssa.BinOp:
+			case *ssa.UnOp:
+				if x.Op == token.MUL {
+					switch a := x.X.(type) {
+					case *ssa.FreeVar:
+						pt, _ := a.Type().Underlying().(*types.Pointer)
+						if pt == nil || !c10IsSlice(pt.Elem()) || !types.Identical(pt.Elem().Underlying().(*types.Slice).Elem(), bi.elem) {
+							set(1, "reads the captured variable "+a.Name())
+						}
+					case *ssa.Global:
+						set(1, "reads the package variable "+a.Name())
+					}
+				}
+			case *ssa.FieldAddr:
+				field(x.X.Type(), x.Field)
+			case *ssa.Field:
+				field(x.X.Type(), x.Field)
+			case *ssa.Call:
+				cc := x.Common()
+				switch {
+				case cc.IsInvoke():
+					if elemIsIface && types.Identical(cc.Value.Type(), bi.elem) && IsNamed(bi.elem, c10SortedPath, "Mutation") {
+						if cc.Method.Name() != "Key" {
+							set(2, "calls "+cc.Method.Name()+"() of a mutation")
+						}
+					} else {
+						set(1, "calls "+CallSite{fn, x}.CalleeKey())
+					}
+				default:
+					if bl, ok := cc.Value.(*ssa.Builtin); ok {
+						if bl.Name() != "len" && bl.Name() != "min" && bl.Name() != "max" {
+							set(1, "calls builtin "+bl.Name())
+						}
+						continue
+					}
+					pkg, recv, name := c10StdFunc(CallSite{fn, x})
+					pure := recv == "" && (pkg == "strings" && name == "Compare" || pkg == "bytes" && name == "Compare" || pkg == "cmp" && (name == "Compare" || name == "Less"))
+					if !pure {
+						set(1, "calls "+CallSite{fn, x}.CalleeKey())
+					}
+				}
+			default:
+				set(1, fmt.Sprintf("contains a %T instruction", in))
+			}
+		}
+	}
+	return verdict, why
+}
+
+// c10CmpInfo picks the recording batch type whose element type the comparator works on.
+func (f *c10OFlow) cmpInfo(elem types.Type) *c10BatchInfo {
+	for _, bi := range f.ctx.recording {
+		if elem != nil && types.Identical(bi.elem, elem) {
+			return bi
+		}
+	}
+	return nil
+}
+
+func c10SliceElem(t types.Type) types.Type {
+	if pt, ok := t.Underlying().(*types.Pointer); ok {
+		t = pt.Elem()
+	}
+	if s, ok := t.Underlying().(*types.Slice); ok {
+		return s.Elem()
+	}
+	return nil
+}
+
+// stableSort judges a stable sort applied to the recorded slice.
+func (f *c10OFlow) stableSort(c CallSite) {
+	cc := c.Common()
+	_, _, name := c10StdFunc(c)
+	what := c.CalleeKey()
+	var cmp *ssa.Function
+	var elem types.Type
+	switch name {
+	case "SortStableFunc", "SliceStable":
+		if len(cc.Args) == 2 {
+			cmp = c10FuncValue(cc.Args[1])
+			elem = c10SliceElem(originValue(cc.Args[0]).Type())
+		}
+	case "Stable":
+		if len(cc.Args) == 1 {
+			t := originValue(cc.Args[0]).Type()
+			if mi, ok := cc.Args[0].(*ssa.MakeInterface); ok {
+				t = mi.X.Type()
+			}
+			elem = c10SliceElem(t)
+			if sel := f.ctx.p.SSA.MethodSets.MethodSet(t).Lookup(nil, "Less"); sel != nil {
+				cmp = f.ctx.p.SSA.MethodValue(sel)
+			}
+		}
+	}
+	bi := f.cmpInfo(elem)
+	if bi == nil {
+		f.undec("intact", "%s at line %d sorts the mutations; cannot relate its element type to a recording batch type", what, f.line(c.Pos()))
+		return
+	}
+	v, why := c10KeyOnlyCmp(cmp, bi)
+	switch v {
+	case 0:
+		f.note("intact", "%s with a comparator that reads only the mutation key (%s): same-key mutations keep their relative order", what, FuncKey(cmp))
+	case 2:
+		f.viol("intact", "%s at line %d: the comparator %s: mutations of one key that differ in it are moved past each other, so a set and a later delete of the same key can swap", what, f.line(c.Pos()), why)
+	default:
+		f.undec("intact", "%s at line %d: cannot decide that the comparator reads only the mutation key (%s)", what, f.line(c.Pos()), why)
+	}
+}
+
+func (f *c10OFlow) call(x ssa.CallInstruction, v ssa.Value, bits c10OBits, loops map[*ssa.BasicBlock]bool) {
+	c := CallSite{f.fn, x}
+	cc := c.Common()
+	call, _ := x.(*ssa.Call)
+	if b, ok := cc.Value.(*ssa.Builtin); ok {
+		switch b.Name() {
+		case "append":
+			if call == nil || len(cc.Args) == 0 {
+				return
+			}
+			if sb := bits & c10oSeqMask; sb != 0 {
+				if len(cc.Args) > 1 && cc.Args[1] == v && cc.Args[0] != v && c10EmptySlice(cc.Args[0]) {
+					f.add(call, sb, nil)
+				} else {
+					f.add(call, c10oPart, nil)
+				}
+			}
+			if eb := bits & c10oElemMask; eb != 0 {
+				if c10IsBytesCarrier(call.Type()) {
+					f.add(call, eb, loops)
+				} else {
+					f.add(call, c10oRegroup, nil)
+				}
+			}
+		case "copy":
+			if len(cc.Args) != 2 {
+				return
+			}
+			dst, src := cc.Args[0], cc.Args[1]
+			if src == v {
+				if bits&c10oSeqMask != 0 {
+					nb := c10OBits(c10oPart)
+					if mk, ok := originValue(dst).(*ssa.MakeSlice); ok && bits&c10oSeq != 0 {
+						if a := c10LenOf(mk.Len); a != nil && c10SameSlice(a, v) {
+							nb = c10oSeq
+						}
+					}
+					f.addSliceVar(dst, nb, nil)
+					if o := originValue(dst); o != dst {
+						f.add(o, nb, nil)
+					}
+				}
+				if eb := bits & c10oElemMask; eb != 0 {
+					if c10IsBytesCarrier(dst.Type()) {
+						f.addSliceVar(dst, eb, loops)
+					} else {
+						f.addSliceVar(dst, c10oRegroup, nil)
+					}
+				}
+			}
+			if dst == v && src != v && bits&c10oSeqMask != 0 && call != nil {
+				f.copies = append(f.copies, call)
+			}
+		}
+		return
+	}
+	if bits&c10oSeqMask != 0 {
+		f.seqCall(x, c, v, bits)
+	}
+	if eb := bits & c10oElemMask; eb != 0 {
+		// reading the element itself: sorted.Mutation accessors, parameterless methods of the element
+		accessor := false
+		if cc.IsInvoke() && IsNamed(cc.Value.Type(), c10SortedPath, "Mutation") && cc.Value == v {
+			accessor = true
+		} else if callee := cc.StaticCallee(); callee != nil && callee.Signature.Recv() != nil && len(cc.Args) == 1 && cc.Args[0] == v {
+			accessor = true
+		}
+		carries := call != nil && c10IsBytesCarrier(call.Type())
+		switch {
+		case accessor:
+			if call != nil {
+				f.add(call, eb, loops)
+			}
+		case c10IsCheckSizes(c) || c10Harmless(c):
+			if carries {
+				f.add(call, eb, loops)
+			}
+		case !cc.IsInvoke() && cc.Value == v:
+			f.undec("pass", "a function literal that captured a mutation is called at line %d", f.line(x.Pos()))
+		default:
+			f.site(x, &c, bits, loops)
+			if carries {
+				f.add(call, eb, loops)
+			}
+		}
+	}
+}
+
+// seqCall: the recorded slice (or a closure that captured it) is handed to a call.
+func (f *c10OFlow) seqCall(x ssa.CallInstruction, c CallSite, v ssa.Value, bits c10OBits) {
+	cc := c.Common()
+	call, _ := x.(*ssa.Call)
+	if !cc.IsInvoke() && cc.Value == v {
+		f.undec("intact", "a function literal that captured the recorded mutation slice is called at line %d; cannot follow the slice into it", f.line(x.Pos()))
+		return
+	}
+	switch c10ReorderKind(c) {
+	case "clone":
+		if call != nil {
+			f.add(call, bits&c10oSeqMask, nil)
+		}
+		f.note("intact", "%s (exact copy)", c.CalleeKey())
+		return
+	case "readonly":
+		return
+	case "reorder":
+		f.viol("intact", "the recorded mutation slice (or a copy of it) is handed to %s at line %d, which does not keep the relative order of equal-keyed elements: a set and a later delete of one key inside a batch can be applied in the opposite order", c.CalleeKey(), f.line(x.Pos()))
+		return
+	case "stable":
+		f.stableSort(c)
+		return
+	}
+	if c10Harmless(c) {
+		return
+	}
+	callee := c.Callee()
+	if callee != nil && callee.Blocks != nil && InModule(callee) && callee.Parent() == nil && f.depth < 2 && !cc.IsInvoke() {
+		seeds := map[int]c10OBits{}
+		key := FuncKey(callee)
+		for i, a := range cc.Args {
+			if b := f.lab[a] & c10oSeqMask; b != 0 && i < len(callee.Params) {
+				seeds[i] = b
+				key += fmt.Sprintf("|%d:%d", i, b)
+			}
+		}
+		sub := f.ctx.helpers[key]
+		if sub == nil {
+			sub = f.ctx.analyse(callee, seeds, f.depth+1)
+			f.ctx.helpers[key] = sub
+		}
+		for cl, ms := range sub.viol {
+			for _, m := range ms {
+				f.viol(cl, "in %s: %s", FuncKey(callee), m)
+			}
+		}
+		for cl, ms := range sub.und {
+			for _, m := range ms {
+				f.undec(cl, "in %s: %s", FuncKey(callee), m)
+			}
+		}
+		for cl, ms := range sub.notes {
+			for _, m := range ms {
+				f.note(cl, "in %s: %s", FuncKey(callee), m)
+			}
+		}
+		if call != nil && sub.ret != 0 {
+			f.add(call, sub.ret, nil)
+		}
+		if len(sub.sites) > 0 {
+			s := f.site(x, &c, 0, nil)
+			s.helper = sub
+		}
+		return
+	}
+	f.undec("intact", "the recorded mutation slice is handed to %s at line %d; cannot follow it there", c.CalleeKey(), f.line(x.Pos()))
+}
+
+func (f *c10OFlow) step(v ssa.Value, bits c10OBits, loops map[*ssa.BasicBlock]bool, r ssa.Instruction) {
+	eb := bits & c10oElemMask
+	switch x := r.(type) {
+	case *ssa.Store:
+		if x.Val != v {
+			return
+		}
+		if ia, ok := x.Addr.(*ssa.IndexAddr); ok && c10IsSlice(ia.X.Type()) && !c10IsBytesCarrier(ia.X.Type()) {
+			if eb != 0 {
+				f.addSliceVar(ia.X, c10oRegroup, nil)
+			}
+			if bits&c10oSeqMask != 0 {
+				f.undec("intact", "the recorded mutation slice is stored into another slice at line %d", f.line(x.Pos()))
+			}
+			return
+		}
+		if al, ok := c10RootCell(x.Addr).(*ssa.Alloc); ok && al.Parent() == f.fn {
+			f.add(al, bits, loops)
+			return
+		}
+		if bits&c10oSeqMask != 0 {
+			f.undec("intact", "the recorded mutation slice is stored to %s at line %d; cannot follow it", AccessPath(x.Addr), f.line(x.Pos()))
+		}
+		if eb != 0 {
+			f.site(x, nil, bits, loops)
+		}
+	case *ssa.MapUpdate:
+		if x.Key != v && x.Value != v {
+			return
+		}
+		if bits&c10oSeqMask != 0 {
+			f.undec("intact", "the recorded mutation slice is put into a map at line %d", f.line(x.Pos()))
+		}
+		if eb == 0 {
+			return
+		}
+		if mk, ok := originValue(x.Map).(*ssa.MakeMap); ok && mk.Parent() == f.fn {
+			f.add(mk, eb|c10oMapOf, loops)
+			f.addSliceVar(x.Map, eb|c10oMapOf, loops)
+		} else {
+			f.site(x, nil, bits, loops)
+		}
+	case *ssa.MakeClosure:
+		f.add(x, bits, loops)
+	case ssa.CallInstruction:
+		f.call(x, v, bits, loops)
+	case *ssa.Return:
+		f.sum.ret |= bits & c10oSeqMask
+	case *ssa.If, *ssa.DebugRef, *ssa.Panic, *ssa.RunDefers, *ssa.Jump:
+	case *ssa.Send:
+		if bits&c10oSeqMask != 0 {
+			f.undec("intact", "the recorded mutation slice is sent on a channel at line %d", f.line(x.Pos()))
+		}
+		if eb != 0 && x.X == v {
+			f.site(x, nil, bits, loops)
+		}
+	case *ssa.Phi:
+		hb := x.Block()
+		carried := false
+		if eb != 0 {
+			for i, e := range x.Edges {
+				if e == v && hb.Dominates(hb.Preds[i]) {
+					carried = true
+				}
+			}
+		}
+		if carried {
+			f.add(x, bits&^c10oElem|c10oCarried, nil)
+		} else {
+			f.add(x, bits, loops)
+		}
+	case *ssa.IndexAddr:
+		if x.X != v {
+			return
+		}
+		if bits&c10oSeqMask != 0 && c10IsSlice(v.Type()) {
+			var nb c10OBits
+			var h *ssa.BasicBlock
+			why := ""
+			if bits&c10oSeq == 0 {
+				nb, why = c10oUnk, "the slice indexed is a sub-slice or an extended copy of the recorded one"
+			} else {
+				nb, h, why = c10ClassifyIndex(x)
+			}
+			if why != "" {
+				f.idxWhy[x] = why
+			}
+			f.add(x, nb, map[*ssa.BasicBlock]bool{h: true})
+			if refs := x.Referrers(); refs != nil {
+				for _, u := range *refs {
+					if st, ok := u.(*ssa.Store); ok && st.Addr == ssa.Value(x) {
+						f.idxWrite = append(f.idxWrite, st)
+					}
+				}
+			}
+		}
+		if eb != 0 {
+			f.add(x, eb, loops)
+		}
+	case *ssa.Slice:
+		if x.X != v {
+			return
+		}
+		nb := eb
+		if sb := bits & c10oSeqMask; sb != 0 && c10IsSlice(v.Type()) {
+			if x.Low == nil && x.High == nil && x.Max == nil {
+				nb |= sb
+			} else {
+				nb |= c10oPart
+			}
+		}
+		f.add(x, nb, loops)
+	case *ssa.Range:
+		if bits&c10oMapOf != 0 {
+			f.add(x, c10oUnord, nil)
+		} else {
+			f.add(x, eb, loops)
+		}
+	case *ssa.Lookup:
+		if x.X != v {
+			return
+		}
+		if bits&c10oMapOf != 0 {
+			f.add(x, c10oUnk, nil)
+			f.idxWhy[x] = "the mutation is looked up in a map filled from the mutations"
+		} else {
+			f.add(x, eb, loops)
+		}
+	case *ssa.BinOp:
+		switch x.Op {
+		case token.EQL, token.NEQ, token.LSS, token.LEQ, token.GTR, token.GEQ:
+			return
+		}
+		f.add(x, eb, loops)
+	case *ssa.UnOp, *ssa.FieldAddr, *ssa.Field, *ssa.ChangeType, *ssa.MakeInterface, *ssa.ChangeInterface,
+		*ssa.TypeAssert, *ssa.Extract, *ssa.Convert, *ssa.SliceToArrayPointer, *ssa.MultiConvert:
+		f.add(x.(ssa.Value), bits, loops)
+	case ssa.Value:
+		f.add(x, eb, loops)
+	}
+}
+
+// seed marks where the recorded slice of a recording batch type enters fn:
+// loads of the slice field and calls of a method that returns it.
+func (f *c10OFlow) seed() {
+	for _, b := range f.fn.Blocks {
+		for _, in := range b.Instrs {
+			switch x := in.(type) {
+			case *ssa.UnOp:
+				if x.Op != token.MUL {
+					continue
+				}
+				if fa, ok := x.X.(*ssa.FieldAddr); ok {
+					if bi := f.ctx.recording[NamedOf(fa.X.Type())]; bi != nil && fa.Field == bi.seqField {
+						f.add(x, c10oSeq, nil)
+						f.sum.nSeeds++
+					}
+				}
+			case *ssa.Field:
+				if bi := f.ctx.recording[NamedOf(x.X.Type())]; bi != nil && x.Field == bi.seqField {
+					f.add(x, c10oSeq, nil)
+					f.sum.nSeeds++
+				}
+			case *ssa.Call:
+				cc := x.Common()
+				for _, bi := range f.ctx.recording {
+					for acc, bits := range bi.accessors {
+						hit := false
+						if cc.IsInvoke() {
+							if it, ok := cc.Value.Type().Underlying().(*types.Interface); ok && cc.Method.Name() == acc.Name() &&
+								types.Identical(cc.Method.Type().(*types.Signature).Results(), acc.Signature.Results()) &&
+								(types.Implements(types.NewPointer(bi.typ), it) || types.Implements(bi.typ, it)) {
+								hit = true
+							}
+						} else if cc.StaticCallee() == acc {
+							hit = true
+						}
+						if hit {
+							f.add(x, bits, nil)
+							f.sum.nSeeds++
+						}
+					}
+				}
+			}
+		}
+	}
+}
+
+func (ctx *c10OrderCtx) analyse(fn *ssa.Function, paramSeeds map[int]c10OBits, depth int) *c10OrderSum {
+	sum := &c10OrderSum{fn: fn, viol: map[string][]string{}, und: map[string][]string{}, notes: map[string][]string{}}
+	f := &c10OFlow{ctx: ctx, fn: fn, depth: depth, lab: map[ssa.Value]c10OBits{}, loops: map[ssa.Value]map[*ssa.BasicBlock]bool{},
+		sum: sum, siteOf: map[ssa.Instruction]*c10OSite{}, idxWhy: map[ssa.Value]string{}}
+	for i, b := range paramSeeds {
+		f.add(fn.Params[i], b, nil)
+		sum.nSeeds++
+	}
+	f.seed()
+	for len(f.work) > 0 {
+		v := f.work[len(f.work)-1]
+		f.work = f.work[:len(f.work)-1]
+		refs := v.Referrers()
+		if refs == nil {
+			continue
+		}
+		for _, r := range *refs {
+			if r.Parent() == fn {
+				f.step(v, f.lab[v], f.loops[v], r)
+			}
+		}
+	}
+	f.finish()
+	return sum
+}
+
+// finish judges index writes and the places where mutations are handed on.
+func (f *c10OFlow) finish() {
+	for _, st := range f.idxWrite {
+		if f.lab[st.Val]&(c10oElemMask|c10oSeqMask) != 0 {
+			f.viol("intact", "an element of the recorded mutation slice is overwritten with another mutation at line %d (swap/move in place): the recording order is changed before the batch is applied", f.line(st.Pos()))
+		} else {
+			f.undec("intact", "an element of the recorded mutation slice is overwritten at line %d", f.line(st.Pos()))
+		}
+	}
+	for _, cp := range f.copies {
+		dst, src := cp.Call.Args[0], cp.Call.Args[1]
+		if _, fresh := originValue(dst).(*ssa.MakeSlice); !fresh || f.lab[src]&c10oSeqMask == 0 {
+			f.undec("intact", "copy() at line %d writes into the recorded mutation slice", f.line(cp.Pos()))
+		}
+	}
+	whyUnk := func() string {
+		var ws []string
+		for _, w := range f.idxWhy {
+			ws = append(ws, w)
+		}
+		sort.Strings(ws)
+		return strings.Join(dedupe(ws), "; ")
+	}
+	passes := map[any]bool{}
+	for _, s := range f.sum.sites {
+		ln := f.line(s.instr.Pos())
+		what := "a store"
+		if s.call != nil {
+			what = s.call.CalleeKey()
+			ln = f.line(s.call.Pos())
+		}
+		if s.helper != nil {
+			passes[s.instr] = true
+			if c10LoopHeader(s.instr.Block()) != nil {
+				f.undec("pass", "%s, which replays the whole mutation slice, is called inside a loop at line %d", what, ln)
+			}
+			if s.bits == 0 {
+				continue
+			}
+		}
+		if s.call != nil && s.call.IsGo() {
+			f.viol("pass", "the mutation is handed to %s in a new goroutine at line %d: nothing orders it with the mutations before and after it", what, ln)
+			continue
+		}
+		if s.call != nil && s.call.IsDefer() {
+			f.undec("pass", "the mutation is handed to the deferred call %s at line %d: deferred calls run in reverse order", what, ln)
+			continue
+		}
+		switch b := s.bits; {
+		case b&c10oRev != 0:
+			f.viol("pass", "%s at line %d receives mutations read at a descending index: the batch is replayed backwards, so the FIRST set/delete of a key wins instead of the last", what, ln)
+		case b&c10oUnord != 0:
+			f.viol("pass", "%s at line %d receives mutations obtained by ranging over a map filled from the batch: map iteration order is random and a map keyed by mutation key keeps one mutation per key, so the recording order is lost", what, ln)
+		case b&c10oRegroup != 0:
+			f.undec("pass", "%s at line %d receives mutations from a slice rebuilt element by element; cannot decide that the rebuilt slice keeps sets and deletes of one key in recording order", what, ln)
+		case b&c10oCarried != 0:
+			f.undec("pass", "%s at line %d receives a mutation carried over from an earlier loop iteration", what, ln)
+		case b&c10oUnk != 0:
+			f.undec("pass", "%s at line %d receives mutations read at an index the analysis cannot prove ascending from element 0 to len-1 (%s)", what, ln, whyUnk())
+		case b&c10oElem != 0:
+			if len(s.loops) != 1 {
+				f.undec("pass", "%s at line %d mixes mutations of %d different loops", what, ln, len(s.loops))
+				continue
+			}
+			for h := range s.loops {
+				if !c10InLoopOf(h, s.instr.Block()) {
+					f.undec("pass", "%s at line %d uses a mutation outside the loop that read it", what, ln)
+				} else {
+					passes[h] = true
+				}
+			}
+		}
+	}
+	f.sum.passes = len(passes)
+	if len(passes) > 1 {
+		f.viol("pass", "the mutations are handed on in %d separate passes over the recorded slice: a pass that applies some mutations (e.g. all deletes) before another pass applies the rest changes the relative order of a set and a delete of one key", len(passes))
+	}
+	// clause 4: one channel per underlying store
+	chans := map[string]map[string]bool{}
+	for _, s := range f.sum.sites {
+		if s.call == nil || s.bits&c10oElem == 0 {
+			continue
+		}
+		store, ch, ok := c10Channel(*s.call, f.line)
+		if !ok {
+			continue
+		}
+		if chans[store] == nil {
+			chans[store] = map[string]bool{}
+		}
+		chans[store][ch] = true
+	}
+	var stores []string
+	for st := range chans {
+		stores = append(stores, st)
+	}
+	sort.Strings(stores)
+	for _, st := range stores {
+		var cs []string
+		for ch := range chans[st] {
+			cs = append(cs, ch)
+		}
+		sort.Strings(cs)
+		if len(cs) > 1 {
+			f.viol("channels", "mutations for %s travel through %d different channels (%s): whatever goes through one channel is applied before or after everything in the other, so a set and a delete of one key lose their relative order", st, len(cs), strings.Join(cs, ", "))
+		} else {
+			f.note("channels", "%s <- %s", st, cs[0])
+		}
+	}
+}
+
+// c10Channel names the way one mutation reaches an underlying store: store =
+// access path of the store (for a batch: of the store BeginBatch was called
+// on), ch = "direct" or the batch it is queued in.
+func c10Channel(c CallSite, line func(token.Pos) int) (store, ch string, ok bool) {
+	cc := c.Common()
+	var recv ssa.Value
+	switch {
+	case cc.IsInvoke():
+		recv = cc.Value
+	case cc.StaticCallee() != nil && cc.StaticCallee().Signature.Recv() != nil && len(cc.Args) > 0:
+		recv = cc.Args[0]
+	default:
+		return "", "", false
+	}
+	// a batch obtained from BeginBatch of some store?
+	var begins []*ssa.Call
+	clean := true
+	seen := map[ssa.Value]bool{}
+	var walk func(v ssa.Value)
+	walk = func(v ssa.Value) {
+		if v == nil || seen[v] || IsNilConst(v) {
+			return
+		}
+		seen[v] = true
+		switch x := v.(type) {
+		case *ssa.Call:
+			if x.Call.IsInvoke() && x.Call.Method.Name() == "BeginBatch" || x.Call.StaticCallee() != nil && x.Call.StaticCallee().Name() == "BeginBatch" {
+				begins = append(begins, x)
+				return
+			}
+		case *ssa.Phi:
+			for _, e := range x.Edges {
+				walk(e)
+			}
+			return
+		case *ssa.ChangeInterface:
+			walk(x.X)
+			return
+		case *ssa.MakeInterface:
+			walk(x.X)
+			return
+		case *ssa.UnOp:
+			if x.Op == token.MUL {
+				if cell, ok := varOf(x.X); ok {
+					if sts := storesTo(cell); len(sts) > 0 {
+						for _, st := range sts {
+							walk(st.Val)
+						}
+						return
+					}
+				}
+			}
+		}
+		clean = false
+	}
+	walk(recv)
+	if len(begins) > 0 && clean {
+		var paths, ids []string
+		for _, b := range begins {
+			a := CallSite{c.Fn, b}.Args()
+			if len(a) == 0 {
+				return "", "", false
+			}
+			paths = append(paths, AccessPath(a[0]))
+			ids = append(ids, fmt.Sprintf("the batch %s begun at line %d", b.Name(), line(b.Pos())))
+		}
+		paths = dedupe(paths)
+		if len(paths) != 1 {
+			return "", "", false
+		}
+		sort.Strings(ids)
+		return paths[0], strings.Join(ids, "+"), true
+	}
+	return AccessPath(recv), "direct calls", true
+}
+
+// c10RecordRes: what one Set/Delete method of a batch type does with its key.
+type c10RecordRes struct {
+	nRecord  int
+	field    int            // recording: the slice field appended to
+	forwards []map[int]bool // direct: per hand-over, the receiver fields among the call's operands
+	viol     []string
+	und      []string
+	keyFlds  map[c10FieldKey]map[byte]bool
+}
+
+// c10RecordAnalysis follows the key parameter of a batch type's Set/Delete
+// (also through one helper that receives the batch) to where it is recorded
+// or forwarded.
+func c10RecordAnalysis(p *Program, fn *ssa.Function, recvIdx int, seeds map[int]string, depth int, res *c10RecordRes) {
+	recv := ssa.Value(fn.Params[recvIdx])
+	f := c10NewFlow(fn)
+	for i, l := range seeds {
+		f.source(fn.Params[i], l)
+	}
+	f.run()
+	for k, v := range f.fieldStores {
+		if res.keyFlds[k] == nil {
+			res.keyFlds[k] = map[byte]bool{}
+		}
+		for b := range v {
+			res.keyFlds[k][b] = true
+		}
+	}
+	for _, e := range f.escapes {
+		res.und = append(res.und, "cannot follow the key in "+FuncKey(fn)+": "+e)
+	}
+	line := func(pos token.Pos) int { return p.Fset.Position(pos).Line }
+	for _, s := range f.sinks {
+		if len(c10Kinds(s.labels, 'K')) == 0 {
+			continue
+		}
+		if s.call != nil {
+			c := *s.call
+			if c10IsCheckSizes(c) || c10Harmless(c) {
+				continue
+			}
+			if c.IsGo() {
+				res.viol = append(res.viol, fmt.Sprintf("hands the key to %s in a new goroutine (line %d): the order of recording is lost", s.what, line(c.Pos())))
+				continue
+			}
+			cc := c.Common()
+			// a helper that receives the batch itself
+			if callee := cc.StaticCallee(); callee != nil && InModule(callee) && callee.Blocks != nil && depth < 1 {
+				ri, sub := -1, map[int]string{}
+				for i, a := range cc.Args {
+					if i >= len(callee.Params) {
+						break
+					}
+					if sameOrigin(a, recv) {
+						ri = i
+					}
+					for l := range f.lab[a] {
+						sub[i] = l
+					}
+				}
+				if ri >= 0 {
+					c10RecordAnalysis(p, callee, ri, sub, depth+1, res)
+					continue
+				}
+			}
+			ops := append([]ssa.Value{}, c.Args()...)
+			if !cc.IsInvoke() && cc.StaticCallee() == nil {
+				ops = append(ops, cc.Value)
+			}
+			flds := map[int]bool{}
+			for _, o := range ops {
+				if root, idx := c10FieldChain(o); len(idx) > 0 && sameOrigin(root, recv) {
+					flds[idx[0]] = true
+				}
+			}
+			res.forwards = append(res.forwards, flds)
+			continue
+		}
+		st, ok := s.instr.(*ssa.Store)
+		if !ok {
+			res.und = append(res.und, fmt.Sprintf("puts the key into %s (line %d); cannot tell the order in which it comes back out", s.what, line(s.instr.Pos())))
+			continue
+		}
+		switch st.Val.Type().Underlying().(type) {
+		case *types.Slice, *types.Map, *types.Struct, *types.Pointer:
+		case *types.Basic:
+			if !c10IsBytesCarrier(st.Val.Type()) {
+				continue
+			}
+		case *types.Interface:
+			if isErrorType(st.Val.Type()) {
+				continue
+			}
+		default:
+			continue
+		}
+		fa, ok := st.Addr.(*ssa.FieldAddr)
+		if !ok || !sameOrigin(fa.X, recv) || !c10IsSlice(st.Val.Type()) || c10IsBytesCarrier(st.Val.Type()) {
+			res.und = append(res.und, fmt.Sprintf("stores the key at %s (line %d), not in a slice field of the batch; cannot tell the order in which it comes back out", s.what, line(st.Pos())))
+			continue
+		}
+		if res.nRecord > 0 && res.field != fa.Field {
+			res.viol = append(res.viol, fmt.Sprintf("records into two different slice fields (%s and %s): the relative order of the mutations in one and the other is lost", fieldName(fa.X.Type(), res.field), fieldName(fa.X.Type(), fa.Field)))
+			continue
+		}
+		res.nRecord++
+		res.field = fa.Field
+		call, isCall := st.Val.(*ssa.Call)
+		isAppend := false
+		if isCall {
+			if b, ok := call.Call.Value.(*ssa.Builtin); ok && b.Name() == "append" {
+				isAppend = true
+			}
+		}
+		if !isAppend {
+			res.und = append(res.und, fmt.Sprintf("assigns the slice field %s a value that is not append(%s, …) (line %d); cannot decide that the new mutation is placed after all earlier ones", fieldName(fa.X.Type(), fa.Field), fieldName(fa.X.Type(), fa.Field), line(st.Pos())))
+			continue
+		}
+		ok = false
+		if ld, isLd := call.Call.Args[0].(*ssa.UnOp); isLd && ld.Op == token.MUL {
+			if fa0, isFA := ld.X.(*ssa.FieldAddr); isFA && fa0.Field == fa.Field && sameOrigin(fa0.X, recv) {
+				ok = true
+			}
+		}
+		if !ok {
+			res.viol = append(res.viol, fmt.Sprintf("the slice field %s is assigned append(<something else>, …) at line %d: the new mutation is not placed after all earlier ones (prepending or rebuilding reverses/loses the recording order)", fieldName(fa.X.Type(), fa.Field), line(st.Pos())))
+		}
+	}
+}
+
+func c10RuleBatchOrder(p *Program, r *Reporter) {
+	const rule = "V-batch-order"
+	bmIface := p.Iface("pkg/sorted", "BatchMutation")
+	kvIface := p.Iface("pkg/sorted", "KeyValue")
+	ctx := &c10OrderCtx{p: p, recording: map[*types.Named]*c10BatchInfo{}, helpers: map[string]*c10OrderSum{}}
+	infos := map[*types.Named]*c10BatchInfo{}
+	// ---- (3): every batch type records at the end of one slice, or forwards to one ordered engine batch
+	for _, n := range p.Implementers(bmIface, false) {
+		bi := &c10BatchInfo{typ: n, seqField: -1, keyField: -1, accessors: map[*ssa.Function]c10OBits{}}
+		infos[n] = bi
+		tkey := typeKey(n)
+		site := p.Pos(n.Obj().Pos())
+		var results []*c10RecordRes
+		allKeyFlds := map[c10FieldKey]map[byte]bool{}
+		for _, m := range []string{"Set", "Delete"} {
+			fn, decl := c10Method(p, n, m)
+			if fn == nil || !decl || fn.Blocks == nil || len(fn.Params) < 2 {
+				r.Undecided(rule, tkey+"."+m+"#records-in-order", site, "method is promoted or has no body: cannot see how the mutation is recorded")
+				results = append(results, nil)
+				continue
+			}
+			res := &c10RecordRes{keyFlds: allKeyFlds}
+			seeds := map[int]string{1: "K:param"}
+			if len(fn.Params) > 2 {
+				seeds[2] = "V:param"
+			}
+			c10RecordAnalysis(p, fn, 0, seeds, 0, res)
+			results = append(results, res)
+			construct, fsite := FuncKey(fn)+"#records-in-order", p.Pos(fn.Pos())
+			switch {
+			case len(res.viol) > 0:
+				r.Violation(rule, construct, fsite, strings.Join(res.viol, "; "))
+			case len(res.und) > 0:
+				r.Undecided(rule, construct, fsite, strings.Join(res.und, "; "))
+			case res.nRecord > 0 && len(res.forwards) > 0:
+				r.Undecided(rule, construct, fsite, "both records the key in a slice of the batch and hands it to a call; cannot tell which of the two is replayed")
+			case res.nRecord > 0:
+				r.OK(rule, construct, fsite, "records the mutation as "+fieldName(types.NewPointer(n), res.field)+" = append("+fieldName(types.NewPointer(n), res.field)+", …): placed after every earlier mutation of the batch")
+			case len(res.forwards) > 0:
+				r.OK(rule, construct, fsite, fmt.Sprintf("hands the key synchronously to an object held in a field of the batch at recording time (%d hand-over(s)); nothing is replayed later", len(res.forwards)))
+			default:
+				r.Violation(rule, construct, fsite, "the key reaches neither a slice field of the batch nor a call: the mutation is dropped (or the value flow could not be followed)")
+			}
+		}
+		// Set and Delete go into ONE sequence
+		construct := tkey + "#one-sequence"
+		s, d := results[0], results[1]
+		switch {
+		case s == nil || d == nil || len(s.viol)+len(s.und)+len(d.viol)+len(d.und) > 0:
+			r.Undecided(rule, construct, site, "Set/Delete could not be classified (see #records-in-order)")
+		case s.nRecord > 0 && d.nRecord > 0 && len(s.forwards)+len(d.forwards) == 0:
+			if s.field != d.field {
+				r.Violation(rule, construct, site, "Set records into "+fieldName(types.NewPointer(n), s.field)+" but Delete into "+fieldName(types.NewPointer(n), d.field)+": the relative order of a set and a delete of one key is not recorded at all")
+				break
+			}
+			bi.kind, bi.seqField = "recording", s.field
+			if st, ok := n.Underlying().(*types.Struct); ok {
+				bi.elem = c10SliceElem(st.Field(s.field).Type())
+			}
+			if bi.elem == nil {
+				r.Undecided(rule, construct, site, "the recording field is not a slice")
+				bi.kind = ""
+				break
+			}
+			if es := NamedOf(bi.elem); es != nil {
+				if _, ok := es.Underlying().(*types.Struct); ok && !types.IsInterface(bi.elem) {
+					if _, isPtr := bi.elem.(*types.Pointer); !isPtr {
+						bi.elemStruct = es
+					}
+					for k, kinds := range allKeyFlds {
+						if k.typ == es && len(kinds) == 1 && kinds['K'] {
+							if bi.keyField >= 0 && bi.keyField != k.idx {
+								bi.keyField = -2
+							} else if bi.keyField == -1 {
+								bi.keyField = k.idx
+							}
+						}
+					}
+				}
+			}
+			ctx.recording[n] = bi
+			r.OK(rule, construct, site, "Set and Delete append to the same slice field "+fieldName(types.NewPointer(n), s.field)+": one sequence holds the batch in recording order")
+		case s.nRecord == 0 && d.nRecord == 0 && len(s.forwards) > 0 && len(d.forwards) > 0:
+			common := map[int]bool{}
+			for k := range s.forwards[0] {
+				common[k] = true
+			}
+			for _, fw := range append(append([]map[int]bool{}, s.forwards...), d.forwards...) {
+				for k := range common {
+					if !fw[k] {
+						delete(common, k)
+					}
+				}
+			}
+			if len(common) == 0 {
+				r.Violation(rule, construct, site, "Set and Delete do not hand their key to one common object held in a field of the batch: sets and deletes are queued in different engine batches/transactions, so their relative order is lost")
+				break
+			}
+			bi.kind = "direct"
+			var names []string
+			for k := range common {
+				names = append(names, fieldName(types.NewPointer(n), k))
+			}
+			sort.Strings(names)
+			r.OK(rule, construct, site, "every hand-over of Set and of Delete goes to the object in field "+strings.Join(names, "/")+" of the batch: one ordered engine batch/transaction receives sets and deletes in call order")
+		default:
+			r.Undecided(rule, construct, site, "Set and Delete work differently (one records in the batch, the other calls out); cannot tell how their relative order is kept")
+		}
+	}
+	// ---- methods of recording types that give the slice out (Mutations())
+	for _, bi := range ctx.recording {
+		n := bi.typ
+		for i := 0; i < n.NumMethods(); i++ {
+			fn := p.SSA.FuncValue(n.Method(i))
+			if fn == nil || fn.Blocks == nil {
+				continue
+			}
+			sig := fn.Signature
+			if sig.Params().Len() != 0 || sig.Results().Len() != 1 {
+				continue
+			}
+			if el := c10SliceElem(sig.Results().At(0).Type()); el == nil || !c10IsSlice(sig.Results().At(0).Type()) || !types.Identical(el, bi.elem) {
+				continue
+			}
+			sum := ctx.analyse(fn, nil, 1)
+			construct, site := FuncKey(fn)+"#returns-sequence", p.Pos(fn.Pos())
+			switch {
+			case len(sum.viol["intact"])+len(sum.viol["pass"]) > 0:
+				r.Violation(rule, construct, site, strings.Join(append(sum.viol["intact"], sum.viol["pass"]...), "; "))
+			case len(sum.und["intact"])+len(sum.und["pass"]) > 0:
+				r.Undecided(rule, construct, site, strings.Join(append(sum.und["intact"], sum.und["pass"]...), "; "))
+			case sum.ret&c10oSeqMask == 0:
+				r.Undecided(rule, construct, site, "returns a slice of mutations that is not the recorded slice or an order-preserving copy of it; CommitBatch implementations that replay its result cannot be followed")
+			default:
+				bi.accessors[fn] = sum.ret & c10oSeqMask
+				r.OK(rule, construct, site, "returns the recorded slice "+fieldName(types.NewPointer(n), bi.seqField)+" itself (or an order-preserving copy), untouched")
+			}
+		}
+	}
+	// ---- (1) (2) (4): every declared CommitBatch
+	done := map[*ssa.Function]bool{}
+	for _, n := range p.Implementers(kvIface, false) {
+		cb, decl := c10Method(p, n, "CommitBatch")
+		if cb == nil || !decl || done[cb] {
+			continue // promoted: V-size checks that it comes from an enumerated implementer
+		}
+		done[cb] = true
+		site := p.Pos(cb.Pos())
+		key := FuncKey(cb)
+		var bt *c10BatchInfo
+		if bb, declb := c10Method(p, n, "BeginBatch"); bb != nil && declb {
+			bt = infos[NamedOf(c10BatchConcrete(bb, 0))]
+		}
+		sum := ctx.analyse(cb, nil, 0)
+		if bt != nil && bt.kind == "direct" && sum.nSeeds == 0 {
+			r.OKTable(rule, key+"#applied-at-recording", site, "BeginBatch returns "+typeKey(bt.typ)+", whose Set/Delete hand each mutation to the engine batch/transaction when they are called (see "+typeKey(bt.typ)+"#one-sequence); CommitBatch replays nothing")
+			continue
+		}
+		if sum.nSeeds == 0 {
+			r.Undecided(rule, key+"#one-ascending-pass", site, "CommitBatch never reads the recorded mutation slice of a recording batch type (neither the slice field nor a method returning it): cannot find where the batch is applied")
+			continue
+		}
+		emit := func(clause, construct, okText string) {
+			switch {
+			case len(sum.viol[clause]) > 0:
+				r.Violation(rule, construct, site, strings.Join(sum.viol[clause], "; "))
+			case len(sum.und[clause]) > 0:
+				r.Undecided(rule, construct, site, strings.Join(sum.und[clause], "; "))
+			default:
+				if ns := sum.notes[clause]; len(ns) > 0 {
+					okText += " [" + strings.Join(ns, "; ") + "]"
+				}
+				r.OK(rule, construct, site, okText)
+			}
+		}
+		emit("intact", key+"#sequence-intact", "the recorded mutation slice and every copy of it reach no reordering function, no unstable sort, no in-place element write and no code the analysis cannot follow before it is replayed")
+		if len(sum.sites) == 0 && len(sum.viol["pass"])+len(sum.und["pass"]) == 0 {
+			r.Undecided(rule, key+"#one-ascending-pass", site, "CommitBatch reads the recorded mutation slice but hands no mutation to a call or store: cannot find where the batch is applied")
+		} else {
+			emit("pass", key+"#one-ascending-pass", fmt.Sprintf("all %d place(s) that hand a mutation on sit in one loop whose counter starts at element 0, advances by one and is tested against len(slice): the batch is replayed once, first to last", len(sum.sites)))
+		}
+		emit("channels", key+"#one-channel-per-store", "each underlying store receives all its mutations through a single channel (direct calls, or one batch begun on it), so the replay order is the order that store sees")
+	}
+	r.Floor(rule, 24)
 }
